@@ -35,8 +35,8 @@ CHECKS = {
             'DESIGN.md §3 C05', 'kern'),
     'C07': ('translation_validation',
             'metamorphic: original and permuted/renamed program both compiled by the real compiler, equivalence of the two emitted SQL texts decided by z3 over a bounded symbolic database; sat models replayed on real SQLite',
-            'For each catalogue program (core, agg, rec) and a seeded permutation of rules/conjuncts/disjuncts or renaming of variables/predicates, z3 proves both emitted SQL texts return the same multiset on every database with <=K rows per table.',
-            'Trusted: lv/sqlsem.py, z3. Part (b) of the design (order independence of the Python aggregate UDFs ArgMin/ArgMax/Set/ArrayConcatAgg) is decided by the kernels of the C20 check, which also carry the Set arrival-order known finding.',
+            'For each catalogue program (core, agg, rec, layered, sugarbase, functor programs) and a permutation of rules/conjuncts/disjuncts, a renaming of variables/predicates, or an alpha-renaming of the variables local to one aggregating expression, z3 proves both emitted SQL texts return the same multiset on every database with <=K rows per table; a transformed program that is rejected while the original compiles is a violation.',
+            'Trusted: lv/sqlsem.py, z3. Known finding KF-C07-order-dependent-elimination. Part (b) of the design (order independence of the Python aggregate UDFs ArgMin/ArgMax/Set/ArrayConcatAgg) is decided by the kernels of the C20 check, which also carry the Set arrival-order known finding.',
             'DESIGN.md §3 C07', 'sqlsmt'),
     'C08': ('translation_validation',
             'metamorphic: the same program under its default plan and under a seeded assignment of @NoInject/@With/@NoWith/@Ground to its intermediates, both compiled by the real compiler; equivalence decided by z3 over a bounded symbolic database (multi-statement @Ground plans through a symbolic statement interpreter); sat models replayed on real SQLite',
@@ -65,13 +65,13 @@ CHECKS = {
             'DESIGN.md §3 C13', 'kern'),
     'C14': ('other',
             '(a) CrossHair symbolic execution of the real Concertina scheduler over symbolic DAGs, iteration groups, repetition counts and stop instants ("Confirmed over all paths"); (b) z3 equivalence of plans executed by the real ExecuteLogicaProgram with a symbolic sql_runner for different sets of requested predicates; counterexamples replayed on the real code',
-            'All 64 DAGs on 4 actions x iteration-group shapes x repetitions 1..3 (and stop instants) are confirmed to run every action after its prerequisites, non-iterated ones once, iterated ones round-robin the declared number of times, and to terminate; compiled @Ground/deep-recursion plans return the same table for a predicate whether asked alone or with others, never read a table before it is produced, and satisfy the shape invariant the scheduler proof assumes.',
+            'All 64 DAGs on 4 actions x iteration-group shapes x repetitions 1..3 (and stop instants) are confirmed to run every action after its prerequisites, non-iterated ones once, iterated ones round-robin the declared number of times, and to terminate; compiled @Ground/deep-recursion plans return the same table for a predicate whether asked alone or together with one or two others (in either order, incl. the grounded inputs themselves), never read a table before it is produced, and satisfy the shape invariant the scheduler proof assumes.',
             'Trusted: CrossHair, z3, lv/sqlsem.py. Stubs: display functions, os/open for the stop file. Bound: 4 actions (6 for two groups), name assignments sampled (2 quick / 4 thorough).',
             'DESIGN.md §3 C14', 'kern'),
     'C15': ('other',
-            'CrossHair symbolic execution of the real scanner functions (Traverse, RemoveComments, IsWhole, SplitRaw, Split, Strip, StripSpaces, HeritageAwareString slicing) over all strings / slice bounds within a length bound; each lemma claimed on "Confirmed over all paths"; counterexamples replayed on the real functions',
-            'String bodies are opaque to the scanner and to every separator split; block and line comments are invisible; blanks, one pair of redundant parentheses and a trailing semicolon do not change what Split/Strip return; every slice of a HeritageAwareString spans exactly its own text. These are the lemmas the splitting parser rests on, for all strings within the bound.',
-            'Trusted: CrossHair. Bound: <=2 free body characters between enumerated contexts, <=3 (4 thorough) free characters elsewhere, heritage of 10 characters. Outside: whole-ParseFile invariance, C++ parser.',
+            'CrossHair symbolic execution of the real scanner functions (Traverse, RemoveComments, IsWhole, SplitRaw, Split, Strip, StripSpaces, HeritageAwareString slicing) over all strings / slice bounds within a length bound; each lemma claimed on "Confirmed over all paths"; plus whole ParseFile runs on eight programs with the placement and kind of layout noise symbolic (solver-driven enumeration, parse executed natively on the resulting concrete text); counterexamples replayed on the real functions',
+            'String bodies are opaque to the scanner and to every separator split; block and line comments are invisible; blanks, one pair of redundant parentheses and a trailing semicolon do not change what Split/Strip return; every slice of a HeritageAwareString spans exactly its own text (all strings within the bound). For eight programs covering the statement forms, replacing any blank outside a string literal by more blanks, a line break, a tab or a comment (also one containing brackets, quotes and :-) leaves the rules returned by ParseFile unchanged and every span attached to a node equal to its text.',
+            'Trusted: CrossHair. Bound: <=2 free body characters between enumerated contexts, <=3 (4 thorough) free characters elsewhere, heritage of 10 characters; 1472 placements on 8 programs. Known finding KF-C15-keyword-needs-blanks. Outside: C++ parser, noise where the source has no blank.',
             'DESIGN.md §3 C15', 'kern'),
     'C16': ('other',
             'CrossHair symbolic execution of the real reference_algebra.Unify / TypeReference.CloseRecord over symbolic type terms, partitioned by top-level constructors so that every partition reaches "Confirmed over all paths"; postcondition = independent structural meet; counterexamples replayed on the real code',
@@ -79,8 +79,8 @@ CHECKS = {
             'Trusted: CrossHair, the harness-side meet. Outside: depth 3, more than two fields, cyclic references.',
             'DESIGN.md §3 C16', 'kern'),
     'C17': ('translation_validation',
-            'histories of CLI-style runs executed by a symbolic statement interpreter (DROP/CREATE/ATTACH + SELECT) over a symbolic database file; each assertion is a z3 equivalence between stores/rows; sat models replayed on a real SQLite file',
-            'For each catalogue program with grounded intermediates and each enumerated history of <=3 runs, z3 proves for every database content within the bound: dependant rows == program without @Ground; table of P == P alone; printing P writes nothing; re-runs return the same rows and leave the same tables.',
+            'histories of CLI-style runs: the statement list of each run is passed through the real sqlite3_logica.RunSqlScript (recording connection) and the texts it hands to SQLite are executed by a symbolic statement interpreter (ATTACH aliases and files, DROP/CREATE, SELECT) over a symbolic database file; each assertion is a z3 equivalence between stores/rows; sat models replayed on a real SQLite file',
+            'For each catalogue program with grounded intermediates (attached as logica_home or logica_test) and each enumerated history of <=3 runs, z3 proves for every database content within the bound: dependant rows == program without @Ground; the table of P in the attached file == P alone; printing P writes nothing; re-runs return the same rows and leave the same tables.',
             'Trusted: lv/sqlsem.py statement interpreter, z3. Outside: overwrite:false, copy_to_file.',
             'DESIGN.md §3 C17', 'sqlsmt'),
     'C18': ('translation_validation',
@@ -94,9 +94,9 @@ CHECKS = {
             'Trusted: CrossHair, the harness-side lexical specification, the valid/invalid marking of the variants. Program shape is enumerated (catalogues), not symbolic. Not claimed: @Ground/@Recursive naming an undefined predicate, diagnostic wording.',
             'DESIGN.md §3 C19', 'kern'),
     'C20': ('other',
-            'CrossHair symbolic execution of the real Python UDFs with unbounded symbolic ints over all arrival orders ("Confirmed over all paths"); z3 model of CPython set iteration to realise the Set-order candidate; z3 translation validation of the SQL-template built-ins (Range, Size, Element, in, Least/Greatest, arithmetic, comparison) against the reference; counterexamples replayed on the real code / real SQLite',
-            'ArgMin/ArgMax/ArgMinK/ArgMaxK/Array, ArrayConcatAgg, ArrayConcat, SortList, InList, Join and the content of Set are confirmed against one-line specifications for every arrival order (n<=4, ties excepted); template built-ins are proved against the reference on every database with <=2 rows.',
-            'Trusted: CrossHair, z3, lv/sqlsem.py model of the SQLite primitives, json stubbed as identity. Known finding KF-C20-set-arrival-order. Outside: ++, Split, ToString/ToInt64, floats.',
+            'CrossHair symbolic execution of the real Python UDFs with unbounded symbolic ints over all arrival orders ("Confirmed over all paths"); CrossHair-enumerated sequences g, f, g of UDF calls on one list text executed natively with the real json module (non-interference); z3 model of CPython set iteration to realise the Set-order candidate; z3 translation validation of the SQL-template built-ins (Range, Size, Element, in, Least/Greatest, arithmetic, comparison) against the reference; counterexamples replayed on the real code / real SQLite',
+            'ArgMin/ArgMax/ArgMinK/ArgMaxK/Array, ArrayConcatAgg, ArrayConcat, SortList, InList, Join and the content of Set are confirmed against one-line specifications for every arrival order (n<=4, ties excepted); a UDF answers the same before and after any other UDF saw the same list text (12 texts x 25 ordered pairs); template built-ins are proved against the reference on every database with <=2 rows.',
+            'Trusted: CrossHair, z3, lv/sqlsem.py model of the SQLite primitives, json stubbed as identity in the per-UDF kernels. Known finding KF-C20-set-arrival-order. Outside: ++, Split, ToString/ToInt64, floats.',
             'DESIGN.md §3 C20', 'kern'),
 }
 
